@@ -134,7 +134,7 @@ def gen_update(rng, npr, tier, force_class=None):
     metric = rng.choice(METRICS + ["euclidean"])
     n = rng.randint(25, 60 if tier == "thorough" else 48)
     d = rng.randint(3, 6) if metric != "hamming" else rng.randint(10, 16)
-    cls = force_class or rng.choice(["plain", "plain", "far", "n1_le_k", "disc", "two_batches", "far_two"])
+    cls = force_class or rng.choice(["plain", "plain", "far", "n1_le_k", "disc", "two_batches", "far_two", "bounded_far", "tiny_stack"])
     k = rng.randint(3, 10)
     if cls == "n1_le_k":
         n1 = rng.randint(6, 12); k = rng.randint(n1, n1 + 4)
@@ -156,6 +156,22 @@ def gen_update(rng, npr, tier, force_class=None):
         X = npr.normal(size=(n, d)) * 10 ** rng.uniform(-1, 1.3)
         if far:
             X[n1:] += 100 * np.abs(X).max()
+    if cls == "bounded_far":
+        # a metric with a preset disconnection distance (its maximum), disconnection_distance left at None, and a new group of fewer than
+        # n_neighbors samples on a disjoint support: every old-new distance is exactly the maximum
+        metric = rng.choice(["hellinger", "jaccard"]); d = 12; k = rng.randint(6, 9); n1 = rng.randint(k + 3, 24); g = rng.randint(3, k - 1)
+        n = n1 + g; sizes = [n1, g]
+        X = np.zeros((n, d))
+        if metric == "hellinger":
+            X[:n1, :6] = npr.random(size=(n1, 6)) + 0.05; X[n1:, 6:] = npr.random(size=(g, 6)) + 0.05
+        else:
+            X[:n1, :6] = npr.random(size=(n1, 6)) < 0.6; X[n1:, 6:] = npr.random(size=(g, 6)) < 0.6
+            X[:n1, 0] = 1; X[n1:, 6] = 1
+            for i_ in range(n): X[i_, rng.randrange(1, 6) + (6 if i_ >= n1 else 0)] = (i_ % 2)   # avoid identical rows as far as cheap
+    if cls == "tiny_stack":
+        # the stacked data stay no larger than n_neighbors for two updates
+        metric = rng.choice(["euclidean", "manhattan"]); k = 15; sizes = [6, 5, 3, 12]; n = sum(sizes); n1 = 6; d = 4
+        X = npr.normal(size=(n, d))
     X = X.astype(np.float32)
     p = dict(n_neighbors=k, metric=metric, n_epochs=11, random_state=rng.randrange(1000), set_op_mix_ratio=rng.choice([1.0, 1.0, 0.5]))
     if cls == "disc":
@@ -196,6 +212,9 @@ def run_update_case(case):
         except Exception as e:
             ob["err"] = (type(e).__name__, str(e)[:200], int(b), nan_rows); break
         ob["ks"].append(int(m._n_neighbors))
+        if b < cuts[-1]:      # intermediate stage of a multi-batch history: compare with a fresh fit on the data stacked so far
+            fi = umap.UMAP(**p).fit(X[:b].copy())
+            ob.setdefault("steps", []).append((int(b), gdiff(m.graph_, fi.graph_), int(m._n_neighbors), int(fi._n_neighbors)))
     f = umap.UMAP(**p).fit(X.copy())
     ob["k_fresh"] = int(f._n_neighbors)
     ob["model"], ob["fresh"] = m, f
@@ -226,6 +245,12 @@ def oracle_update(ctx, case, ob, Ynew):
         return False
     m, f = ob["model"], ob["fresh"]
     ok = True
+    for (upto, (mx_, sup_), k_u, k_f) in ob.get("steps", []):
+        if mx_ > GTOL or sup_ != 0 or k_u != k_f:
+            ctx.fail("update:graph_differs_at_intermediate_stage:%s" % classify(case),
+                     "after the update that brought the data to %d rows the graph differs from a fresh fit on those rows: max |diff| %.3g, %d entries in only one, n_neighbors %d vs %d"
+                     % (upto, mx_, sup_, k_u, k_f), desc)
+            ok = False
     mx, sup = gdiff(m.graph_, f.graph_)
     if mx > GTOL or sup != 0:
         ctx.fail("update:graph_differs:%s" % classify(case),
@@ -342,7 +367,7 @@ def run(ctx):
     n_upd = 36 if ctx.tier == "quick" else 600
     n_graph = 8 if ctx.tier == "quick" else 60
     max_graph_n = 44 if ctx.tier == "quick" else 60
-    forced = ["plain", "far", "n1_le_k", "disc", "two_batches", "far_two"]
+    forced = ["plain", "far", "n1_le_k", "disc", "two_batches", "far_two", "bounded_far", "bounded_far", "tiny_stack"]
     kterms, kcases, gterms, gcases = [], [], [], []
     for c in range(n_upd):
         case = gen_update(rng, npr, ctx.tier, forced[c] if c < len(forced) else None)
